@@ -484,6 +484,16 @@ def templates():
     for body in multi:
         out.append({"rules": [{"head": ("q", [V("X"), V("Y")]), "body": body}], "query": "q"})
         out.append({"rules": [{"head": ("q", [V("X"), V("Y")]), "body": body + [("cmp", V("X"), "<", V("Y"))]}], "query": "q"})
+    # an atom with a REPEATED variable that is not the first atom, followed by a column that is used later; over a
+    # base relation and over a view, with and without a negated atom (which keeps SIP / join planning away)
+    for rel, pre in (("e", []), ("v", [{"head": ("v", [V("X"), V("Y")]), "body": [("pos", "e", [V("X"), V("Y")])]}])):
+        for neg in ([], [("neg", "c", [V("X")])]):
+            out.append({"rules": pre + [{"head": ("q", [V("X"), V("W")]),
+                                         "body": [("pos", "a", [V("X"), V("Y")]), ("pos", rel, [V("Y"), V("Y")]),
+                                                  ("pos", "b", [V("Y"), V("W")])] + neg}], "query": "q"})
+            out.append({"rules": pre + [{"head": ("q", [V("X"), V("W"), V("Z")]),
+                                         "body": [("pos", "a", [V("X"), V("Y")]), ("pos", "d", [V("Y"), V("Y"), V("W")]),
+                                                  ("pos", rel, [V("W"), V("Z")])] + neg}], "query": "q"})
     return out
 
 
